@@ -39,7 +39,7 @@ def run(ck):
     counter = [ck.shard * 7, ck.shard * 3, ck.shard * 5, ck.shard, ck.shard]
     i = 0
     try:
-        while not ck.out_of_time():
+        while ck.more(min_cases=600 if ck.tier == "quick" else 0):   # not by wall clock alone (load: see DESIGN 8.4b)
             i += 1
             if not ck.mine(i):
                 continue
@@ -238,7 +238,7 @@ class History(object):
         rounds = 5 if self.ck.tier == "quick" else 8
         self.runaway = False
         for r in range(rounds):
-            if self.ck.out_of_time() or self.runaway:
+            if not self.ck.more(min_cases=600 if self.ck.tier == "quick" else 0) or self.runaway:
                 break
             if self.directed:
                 fam = self.directed[r % len(self.directed)]
